@@ -86,7 +86,7 @@ def _written_cell(kind: str, cell, missing: str, fill):
 
 def string_cell_roundtrip(cell: str, missing: str, fill: str) -> bool:
     """
-    pre: len(cell) <= 3 and len(missing) <= 2 and len(fill) <= 2
+    pre: len(cell) <= 3 and len(missing) <= 2 and len(fill) <= 3
     pre: cell == cell.strip() and chr(10) not in cell and chr(13) not in cell
     pre: cell != missing and "," not in missing and missing != ","
     post: _
@@ -97,12 +97,32 @@ def string_cell_roundtrip(cell: str, missing: str, fill: str) -> bool:
     return back == cell
 
 
-_INTS = [0, 7, -3, 10, 999999, -1]
+_SPECIAL_FILLS = ["NaN", "nan", "inf", "None", "True", "1e3", "null", "~"]
+
+
+def string_cell_special_fill(cell_is_fill: bool, cell: str, missing: str, fill_sel: int) -> bool:
+    """
+    pre: len(cell) <= 2 and len(missing) <= 1 and 0 <= fill_sel < 8
+    pre: cell == cell.strip() and chr(10) not in cell and chr(13) not in cell
+    pre: cell != missing and "," not in missing
+    post: _
+    raises: SCSVError
+    """
+    fill = _SPECIAL_FILLS[fill_sel]
+    if missing == fill:
+        return True
+    c = fill if cell_is_fill else cell
+    w = _written_cell("string", c, missing, fill)
+    back = pio._parse_scsv_cell(str, str(w), missingstr=missing, fillval=fill)
+    return back == c
+
+
+_INTS = [0, 7, -3, 10, 999999, -1, 9007199254740993, -12345678901234567890]  # incl. integers no float64 represents
 
 
 def int_cell_roundtrip(cell_sel: int, fill_sel: int, missing: str) -> bool:
     """
-    pre: 0 <= cell_sel < 6 and 0 <= fill_sel < 6
+    pre: 0 <= cell_sel < 8 and 0 <= fill_sel < 8
     pre: len(missing) <= 2 and "," not in missing
     pre: str(_INTS[cell_sel]) != missing
     post: _
@@ -437,3 +457,18 @@ def rows_through_reader_semicolon(c1: str, c2: str, missing: str) -> bool:
     raises: SCSVError
     """
     return _rows_contract(c1, c2, missing, ";")
+
+
+def single_column_rows_through_reader(c1: str, c2: str, missing: str) -> bool:
+    """
+    pre: len(c1) <= 3 and len(c2) <= 1 and len(missing) <= 1
+    pre: c1 == c1.strip() and c2 == c2.strip() and missing == missing.strip()
+    pre: all(ch not in c1 + c2 + missing for ch in (chr(10), chr(13), chr(34), ","))
+    pre: c1 != missing and c2 != missing
+    post: _
+    raises: SCSVError
+    """
+    fills = ["x"]
+    rows = [[c2], [c1], [fills[0]], [c2]]
+    back = _roundtrip_rows(",", missing, fills, rows)
+    return back == [tuple(r[0] for r in rows)]
